@@ -1,2 +1,151 @@
+(* C12 - token value, raw text and lexer agree for every value in the domain.
+
+   Statements only. Models: AB.Tokens (codecs _format_value/_parse_value of every value-carrying token
+   class, the token objects' assignment semantics, recognisers lex_K of the terminals of beancount.lark).
+   "one lexeme" is  lex_K text = Some (zlen text): the terminal's pattern matches at position 0 and the
+   match is the whole text.  The BlockComment and Date theorems are about the repaired code (modes SplitNl,
+   DatePadded); C12_block_found_refuted / C12_date_found_refuted state what the code as found does. *)
 From AB Require Import Prelude Tokens TokensProofs.
-Theorem C12_placeholder : True. Proof. exact I. Qed.
+
+(* --- EscapedString: the domain is every code-point list ----------------------------------------- *)
+Theorem C12_string_roundtrip : forall v : str,
+  string_parse (string_format v) = Ok v /\ lex_string (string_format v) = Some (zlen (string_format v)).
+Proof. intros v. split; [apply string_roundtrip | apply len_matched_full, string_lexr]. Qed.
+Theorem C12_string_escape_unescape : forall (aggressive : bool) (v : str), unescape (escape aggressive v) = v.
+Proof. exact unescape_escape. Qed.
+
+(* --- InlineComment: strings without CR/LF that do not start with a blank ------------------------- *)
+Theorem C12_inline_roundtrip : forall v : str, dom_inline v = true ->
+  inline_parse (inline_format v) = Ok v /\ lex_inline (inline_format v) = Some (zlen (inline_format v)).
+Proof. intros v H. split; [apply inline_roundtrip, H | apply len_matched_full, inline_lexr, H]. Qed.
+Example C12_inline_nonvacuous : dom_inline [97; 32; 59; 34; 12; 8232] = true. Proof. reflexivity. Qed.
+
+(* --- BlockComment ------------------------------------------------------------------------------- *)
+(* the codec alone: every value (any code points, any line structure), any indent without ';' and LF *)
+Theorem C12_block_codec_all_strings : forall i v : str, indent_codec_ok i = true ->
+  block_parse SplitNl (block_format SplitNl i v) = Ok (i, v).
+Proof. exact block_roundtrip. Qed.
+Example C12_block_codec_nonvacuous : indent_codec_ok [32; 9; 120] = true. Proof. reflexivity. Qed.
+(* values with a lexeme: lines of [^\r\n]* joined by \r*\n; indent of blanks *)
+Theorem C12_block_roundtrip : forall i v : str, dom_block_indent i = true -> dom_block_value v = true ->
+  block_parse SplitNl (block_format SplitNl i v) = Ok (i, v) /\
+  lex_block (block_format SplitNl i v) = Some (zlen (block_format SplitNl i v)).
+Proof.
+  intros i v Hi Hv. split; [apply block_roundtrip, ws_indent_codec_ok, Hi | apply len_matched_full, block_lexr; assumption].
+Qed.
+Example C12_block_nonvacuous :
+  dom_block_indent [32; 9] = true /\ dom_block_value [97; 12; 133; 8232; 13; 13; 10; 10; 32; 98; 13; 10] = true.
+Proof. split; reflexivity. Qed.
+(* every BLOCK_COMMENT lexeme is accepted and kept verbatim, and its value describes it *)
+Theorem C12_block_verbatim : forall s : str, lex_block s = Some (zlen s) ->
+  exists t, b_from_raw_text SplitNl s = Ok t /\ b_raw t = s /\
+            block_parse SplitNl (b_raw t) = Ok (b_indent t, b_value t).
+Proof.
+  intros s H. apply len_matched_full in H. destruct (block_lexeme_accepted s H) as [i [v E]].
+  exists (mk_btok s i v). unfold b_from_raw_text. rewrite E. repeat split. exact E.
+Qed.
+Example C12_block_verbatim_nonvacuous : lex_block [32; 59; 97; 12; 98; 13; 10; 9; 59] = Some 9.
+Proof. reflexivity. Qed.
+(* after any sequence of value / raw_text / indent assignments (values: any string; raw texts: any text
+   _parse_value accepts, in particular every lexeme; indents: without ';' and LF) the raw text parses to
+   (indent, value) *)
+Theorem C12_block_history : forall (t : btok) (ops : list b_op),
+  b_coherent t -> Forall b_op_ok ops ->
+  let t' := b_run SplitNl t ops in
+  block_parse SplitNl (b_raw t') = Ok (b_indent t', b_value t') /\ indent_codec_ok (b_indent t') = true.
+Proof. intros t ops Ht Hops. destruct (b_history t ops Ht Hops) as [H1 H2]. split; assumption. Qed.
+Theorem C12_block_history_starts : forall i v s t,
+  (indent_codec_ok i = true -> b_coherent (b_from_value SplitNl i v)) /\
+  (b_from_raw_text SplitNl s = Ok t -> b_coherent t).
+Proof. intros. split; [apply b_from_value_coherent | intros H; apply (b_from_raw_text_ok _ _ H)]. Qed.
+Example C12_block_history_nonvacuous :
+  b_coherent (b_from_value SplitNl [32] [97; 10; 98]) /\
+  Forall b_op_ok [BSetRaw [59; 120; 12; 121]; BSetIndent [9]; BSetValue [13; 99]].
+Proof.
+  split; [apply b_from_value_coherent; reflexivity|].
+  repeat constructor. exists [], [120; 12; 121]. reflexivity.
+Qed.
+(* the code as found (str.splitlines): a lexeme is refused, and a value of the domain is written as a
+   text that is not a lexeme *)
+Theorem C12_block_found_refuted :
+  (exists s, lex_block s = Some (zlen s) /\ block_parse SplitPy s = Err ValueError) /\
+  (exists v, dom_block_value v = true /\
+             lex_block (block_format SplitPy [] v) <> Some (zlen (block_format SplitPy [] v))).
+Proof.
+  split.
+  - exists [SEMI; SPACE; 97; 12; 98]. split; vm_compute; reflexivity.
+  - exists [97; CR; CR; NL; 98]. split; [vm_compute; reflexivity | vm_compute; discriminate].
+Qed.
+
+(* --- Date: every datetime.date (1 <= year <= 9999) ---------------------------------------------- *)
+Theorem C12_date_roundtrip : forall v : date, valid_date v = true ->
+  date_parse (date_format DatePadded v) = Ok v /\
+  lex_date (date_format DatePadded v) = Some (zlen (date_format DatePadded v)).
+Proof. intros v H. split; [apply date_roundtrip, H | apply len_matched_full, date_lexr, H]. Qed.
+Example C12_date_nonvacuous : valid_date (999, 2, 28) = true /\ valid_date (2000, 2, 29) = true.
+Proof. split; reflexivity. Qed.
+Theorem C12_date_found_refuted : exists v, valid_date v = true /\ lex_date (date_format DateStrftime v) = None.
+Proof. exists (999, 1, 2). split; vm_compute; reflexivity. Qed.
+
+(* --- Number: non-negative decimals that str() writes without exponent --------------------------- *)
+Theorem C12_number_roundtrip : forall v : decimal, dom_number v = true ->
+  number_parse (number_format v) = Ok v /\ lex_number (number_format v) = Some (zlen (number_format v)).
+Proof. intros v H. split; [apply number_roundtrip, H | apply len_matched_full, number_lexr, H]. Qed.
+Example C12_number_nonvacuous :
+  dom_number (0, [1; 2; 5; 0], -2) = true /\ dom_number (0, [5], -6) = true /\ dom_number (0, [0], -3) = true.
+Proof. repeat split; reflexivity. Qed.
+
+(* --- Tag, Link, MetaKey, Bool, Null, Account/Currency -------------------------------------------- *)
+Theorem C12_tag_link_roundtrip : forall v : str, dom_tag v = true ->
+  tag_parse (tag_format v) = Ok v /\ lex_tag (tag_format v) = Some (zlen (tag_format v)) /\
+  link_parse (link_format v) = Ok v /\ lex_link (link_format v) = Some (zlen (link_format v)).
+Proof.
+  intros v H. repeat split; [apply len_matched_full, tag_lexr, H | apply len_matched_full, link_lexr, H].
+Qed.
+Theorem C12_metakey_roundtrip : forall v : str, dom_metakey v = true ->
+  metakey_parse (metakey_format v) = Ok v /\ lex_metakey (metakey_format v) = Some (zlen (metakey_format v)).
+Proof. intros v H. split; [apply metakey_roundtrip | apply len_matched_full, metakey_lexr, H]. Qed.
+Example C12_tag_metakey_nonvacuous : dom_tag [97; 45; 47; 46] = true /\ dom_metakey [97; 66; 45] = true.
+Proof. split; reflexivity. Qed.
+Theorem C12_bool_null_roundtrip :
+  (forall b : bool, bool_parse (bool_format b) = Ok b /\ lex_bool (bool_format b) = Some (zlen (bool_format b))) /\
+  lex_null NULL_ = Some (zlen NULL_) /\ (forall v : str, simple_parse (simple_format v) = Ok v).
+Proof. split; [intros b; destruct b; split; reflexivity | split; reflexivity]. Qed.
+
+(* --- token objects of every single-value class --------------------------------------------------- *)
+(* from_raw_text keeps the text verbatim and accepts exactly the texts _parse_value accepts (for Date: the
+   lexemes whose meaning is a calendar date); from_value stores the value *)
+Theorem C12_verbatim : forall (V : Type) (parse : str -> res V) (s : str),
+  (forall v, parse s = Ok v -> sv_from_raw_text parse s = Ok (mk_tok s v)) /\
+  (forall t, sv_from_raw_text parse s = Ok t -> t_raw t = s /\ parse (t_raw t) = Ok (t_val t)).
+Proof. intros V parse s. split; [apply sv_from_raw_text_accepts | apply sv_from_raw_text_ok]. Qed.
+
+(* after any sequence of value / raw_text assignments (values of the domain, raw texts that are accepted)
+   the raw text parses to the value; instantiated for every class *)
+(* history_ok parse format dom  (TokensProofs.v)  :=
+     (forall v, dom v = true -> coherent parse (sv_from_value format v)) /\
+     forall t ops, coherent parse t -> Forall (op_ok parse dom) ops -> coherent parse (sv_run parse format t ops)
+   with  coherent parse t := parse (t_raw t) = Ok (t_val t)
+         op_ok (SetValue v) := dom v = true ;  op_ok (SetRaw s) := exists v, parse s = Ok v *)
+Theorem C12_history :
+  history_ok string_parse string_format dom_string /\
+  history_ok inline_parse inline_format dom_inline /\
+  history_ok date_parse (date_format DatePadded) dom_date /\
+  history_ok number_parse number_format dom_number /\
+  history_ok tag_parse tag_format dom_tag /\ history_ok link_parse link_format dom_tag /\
+  history_ok metakey_parse metakey_format dom_metakey /\
+  history_ok bool_parse bool_format (fun _ => true) /\
+  history_ok simple_parse simple_format (fun _ => true).
+Proof.
+  repeat split; try (apply history_ok_of); intros;
+    first [apply string_roundtrip | apply inline_roundtrip | apply date_roundtrip | apply number_roundtrip
+          | apply tag_roundtrip | apply link_roundtrip | apply metakey_roundtrip | apply bool_roundtrip
+          | apply simple_roundtrip]; assumption.
+Qed.
+Example C12_history_nonvacuous :
+  coherent date_parse (sv_from_value (date_format DatePadded) (999, 1, 2)) /\
+  Forall (op_ok date_parse dom_date) [SetRaw [50; 48; 48; 48; 47; 49; 47; 50]; SetValue (1, 12, 31)].
+Proof.
+  split; [apply sv_from_value_coherent with (dom := dom_date); [apply date_roundtrip | reflexivity]|].
+  repeat constructor. exists (2000, 1, 2). reflexivity.
+Qed.
